@@ -72,8 +72,9 @@ COUNT_O = "nz(arr(col_match), n) == i - 1"
 
 OUTER = VECS + [FEAS_O, MFIN] + FINP + [APR, RANGE_O, INJ, ROWS, TIGHT, COUNT_O, "iterations >= 0", "1 <= i", "0 <= col_match[0] <= n"]
 
-TREE = ("forall(c, implies(1 <= c <= n and (used[c] or c == current_col), used[augment_path[c]] and ordv[augment_path[c]] < ordv[c] and "
-        "row_potential[col_match[augment_path[c]]] + col_potential[c] == matrix[col_match[augment_path[c]] - 1][c - 1]), trig=augment_path[c])")
+TREE_A = "forall(c, implies(1 <= c <= n and (used[c] or c == current_col), used[augment_path[c]] and ordv[augment_path[c]] < ordv[c]), trig=augment_path[c])"
+TREE_B = ("forall(c, implies(1 <= c <= n and (used[c] or c == current_col), "
+          "row_potential[col_match[augment_path[c]]] + col_potential[c] == matrix[col_match[augment_path[c]] - 1][c - 1]), trig=augment_path[c])")
 MSATT = ("forall(c, implies(1 <= c <= n and not used[c], (min_slack[c] == inf() or (used[augment_path[c]] and min_slack[c] == "
          + red("col_match[augment_path[c]]", "c") + "))), trig=min_slack[c])")
 MSPOS = "forall(c, implies(1 <= c <= n and not used[c] and {cond}, min_slack[c] >= 0), trig=min_slack[c])"
@@ -84,7 +85,7 @@ W_COMMON = VECS + [FEAS_W] + FINP + [APR, TIGHT, FIRST, "current_col == 0 or use
     # used columns are matched (column 0 carries row i) and were selected earlier than the current one
     "forall(c, implies(0 <= c <= n and used[c], col_match[c] != 0 and 0 <= ordv[c] < ordv[current_col] and c != current_col), trig=(used[c], col_match[c]))",
     # search tree: a used column c >= 1 was reached from the used column augment_path[c] over a tight entry
-    TREE,
+    TREE_A, TREE_B,
     # min_slack of an unused column bounds its reduced cost from every used row, is non-negative and attained (if finite) by the row of augment_path
     "forall(u, c, implies(0 <= u <= n and used[u] and 1 <= c <= n and not used[c], min_slack[c] <= " + red("col_match[u]", "c") + "), trig=((used[u], min_slack[c]),))",
     MSATT,
@@ -94,7 +95,7 @@ WHILE7 = W_COMMON + ["0 <= current_col <= n", "ordv[current_col] == iterations",
 
 # ---- loop 8 (scan of the unused columns from the row of current_col, which has just been marked used)
 L8 = VECS + [FEAS_W] + FINP + [APR, TIGHT, FIRST, "used[0]", MSPOS.format(cond="current_col != 0"), MSLOW, "-inf() < delta", "len(min_slack) == n + 1", "len(used) == n + 1", "1 <= j",
-    "0 <= next_col <= n", "current_col == 0 or delta >= 0", TREE,
+    "0 <= next_col <= n", "current_col == 0 or delta >= 0", TREE_A, TREE_B,
     "forall(u, c, implies(0 <= u <= n and used[u] and 1 <= c <= n and not used[c] and (u != current_col or c < j), min_slack[c] <= " + red("col_match[u]", "c") + "), trig=((used[u], min_slack[c]),))",
     MSATT,
     "forall(c, implies(1 <= c < j and not used[c], min_slack[c] < inf() and delta <= min_slack[c]), trig=(min_slack[c], col_match[c]))",
@@ -108,6 +109,9 @@ L9 = VECS + FINP + ["len(min_slack) == n + 1", "len(used) == n + 1", "0 <= j", "
     "forall(r, c, implies(1 <= r <= i and used[rm[r]] and 1 <= c <= n and not used[c], ms0[c] <= matrix[r - 1][c - 1] - rp0[r] - cp0[c] and delta <= ms0[c]), trig=((rp0[r], cp0[c]),))",
     "forall(r, c, implies(1 <= r <= n and 1 <= c <= n and (r < i or (r == i and current_col != 0)), rp0[r] + cp0[c] <= matrix[r - 1][c - 1]), trig=((rp0[r], cp0[c]),))",
     "current_col != 0 or forall(c, implies(1 <= c <= n, not used[c]), trig=used[c])", "current_col == 0 or delta >= 0",
+    # the search tree in terms of the snapshots: edges into used columns are tight, the edge into the column selected next has slack delta
+    ("forall(c, implies(1 <= c <= n and (used[c] or c == next_col), used[augment_path[c]] and 1 <= col_match[augment_path[c]] <= i and rm[col_match[augment_path[c]]] == augment_path[c] and "
+     "rp0[col_match[augment_path[c]]] + cp0[c] == matrix[col_match[augment_path[c]] - 1][c - 1] - (0 if used[c] else delta)), trig=augment_path[c])"),
     "forall(c, implies(0 <= c <= n, col_potential[c] == cp0[c] - (delta if (used[c] and c < j) else 0)), trig=col_potential[c])",
     "forall(r, implies(0 <= r <= n, row_potential[r] == rp0[r] + (delta if (1 <= r <= i and used[rm[r]] and rm[r] < j) else 0)), trig=row_potential[r])",
     "forall(c, implies(0 <= c <= n, min_slack[c] == ms0[c] - (delta if (not used[c] and c < j) else 0)), trig=min_slack[c])",
